@@ -352,8 +352,13 @@ def library_races(stderr):
             elif cur is not None and not ln.startswith("      "):
                 cur.append(ln.strip())
         lib = [any(f.startswith("github.com/aldas/go-modbus-client") for f in st) for st in stacks[:2]]
+        # the driver looking at a VALUE THE LIBRARY RETURNED (response / request / error fields) while the library still
+        # writes to it is the library's race too: the memory was handed to the caller
+        inspecting = [any(f.startswith(("main.respFields", "main.reqFields", "main.errInfo", "main.valueBytes")) for f in st) for st in stacks[:2]]
         if len(lib) == 2 and all(lib):
             reps.append("WARNING: DATA RACE" + block[:2500])
+        elif len(lib) == 2 and any(lib) and any(i and not l for i, l in zip(inspecting, lib)):
+            reps.append("WARNING: DATA RACE (the caller reads a returned value the library still writes)" + block[:2500])
         elif stacks:
             raise Infra("data race inside the harness itself:\n" + block[:2500])
     return reps
